@@ -11,15 +11,15 @@ BOUNDARY = {'yarel::object::ObjString::validate_char_boundary', 'core::str::<imp
 
 def run(rep):
     w = rep.world('dev')
-    u1(rep, w)
-    u2(rep, w)
-    u3(rep, w)
+    rep.guard(u1, rep, w)
+    rep.guard(u2, rep, w)
+    rep.guard(u3, rep, w)
     import c10
-    c10.v5(rep, w, 'U4')      # index arithmetic on program-chosen integers cannot overflow (-inf / isize::MIN boundary)
-    u5(rep, w)
-    u6(rep, w)
+    rep.guard(c10.v5, rep, w, 'U4')      # index arithmetic on program-chosen integers cannot overflow (-inf / isize::MIN boundary)
+    rep.guard(u5, rep, w)
+    rep.guard(u6, rep, w)
     import c01, c01_flow
-    c01_flow.r5b(rep, w, c01.may_gc(w))     # slicing copies operands off the stack: they stay rooted until the result exists
+    rep.guard(c01_flow.r5b, rep, w, c01.may_gc(w))     # slicing copies operands off the stack: they stay rooted until the result exists
 
 
 def u1(rep, w):
